@@ -24,7 +24,7 @@ FUN_MODELS = {
     "C12": ("MCFun", "Next_C12", "Inv_C12", {"quick": (8, 0), "thorough": (12, 0)}),
     "C13": ("MCFun", "Next_C13", "Inv_C13", {"quick": (8, 0), "thorough": (12, 0)}),
     "C14": ("MCFun", "Next_C14", "Inv_C14", {"quick": (5, 0), "thorough": (9, 0)}),
-    "C15": ("MCFun", "Next_C15", "Inv_C15", {"quick": (6, 3), "thorough": (9, 4)}),
+    "C15": ("MCFun", "Next_C15", "Inv_C15", {"quick": (5, 3), "thorough": (7, 4)}),
     "C16": ("MCFun", "Next_C16", "Inv_C16", {"quick": (9, 0), "thorough": (14, 0)}),
     "C19": ("MCFun", "Next_C19", "Inv_C19", {"quick": (0, 0), "thorough": (0, 0)}),
     "C20": ("MCFun", "Next_C20", "Inv_C20", {"quick": (4, 4), "thorough": (6, 5)}),
